@@ -409,6 +409,40 @@ def part_b(chk, E, tmp):
                      tags={"part": "history", "history": h, "subject": name.split(" seed")[0]})
 
 
+def ambient_dtype_part(chk, E, tmp):
+    """Process history = a global numeric default changed by earlier code: the algorithms pin their own working precision, so a
+    seeded run on objects built beforehand must not depend on torch's ambient default dtype."""
+    torch = E.torch
+    rng = chk.rng
+    seed = rng.randrange(1000)
+    _, uni = A.cohort("uni")
+    base = E.model_factory("logistic", dimension=1)
+    with core.quiet():
+        base.fit(uni, "mcmc_saem", n_iter=10, n_burn_in_iter=4, seed=2, progress_bar=False)
+    p = os.path.join(tmp, "uni.json")
+    base.save(p)
+    for algo, kw in (("mean_posterior", dict(n_iter=12)), ("mode_posterior", dict(n_iter=12))):
+        name = f"personalize {algo} (univariate, objects built beforehand) seed={seed}"
+        cj = {"part": "history", "subject": name, "history": "ambient-default-dtype-float64"}
+        try:
+            with core.quiet():
+                m1, m2 = E.BaseModel.load(p), E.BaseModel.load(p)
+                ref = A.ip_digest(m1.personalize(uni, algo, seed=seed, progress_bar=False, **kw))
+                old = torch.get_default_dtype()
+                torch.set_default_dtype(torch.float64)
+                try:
+                    got = A.ip_digest(m2.personalize(uni, algo, seed=seed, progress_bar=False, **kw))
+                finally:
+                    torch.set_default_dtype(old)
+        except Exception as e:  # noqa
+            chk.impl_failure(cj, f"{name}: raised {type(e).__name__}: {str(e)[:100]}")
+            continue
+        if got != ref:
+            chk.impl_failure(cj, f"{name}: result under an ambient default dtype of float64 differs bitwise from the plain run")
+        chk.case(("hist", name.split(" seed")[0], "ambient-dtype"), nontrivial=True, tags={"part": "history", "history": "ambient-dtype",
+                                                                                           "subject": name.split(" seed")[0]})
+
+
 def probe_findings(chk, E, tmp):
     _, data = A.cohort("multi")
     work = tempfile.mkdtemp(prefix="f6_", dir=tmp)
@@ -437,6 +471,7 @@ def run(chk: core.Check):
     try:
         part_a(chk, E, tmp)
         part_b(chk, E, tmp)
+        ambient_dtype_part(chk, E, tmp)
         probe_findings(chk, E, tmp)
     finally:
         shutil.rmtree(tmp, ignore_errors=True)
